@@ -889,13 +889,7 @@ func (m *Model) sgConst(name string) constant.Value {
 // sqlCasGuard: with the exempt edges removed from K's CFG, does every statement text that
 // can still reach the Exec carry a conjunct cas = ?p with p bound to the expected CAS?
 func (m *Model) sqlCasGuard(s *SQLSite, K *ssa.Function, c *cut, isP func(ssa.Value) bool, problems []string) (bool, []string) {
-	args := s.Call.Common().Args
-	var q ssa.Value
-	if s.Call.Common().IsInvoke() {
-		q = args[0]
-	} else {
-		q = args[1]
-	}
+	q := s.textArg()
 	ev := newStrEval(m)
 	reach := entryReach(K, c)
 	// cut CFGs: K's own, and one per inlined statement-building helper (keyed by its call site),
@@ -2307,11 +2301,7 @@ func (m *Model) sqlZeroCasUnguarded(s *SQLSite, K *ssa.Function, c0 *cut, isP fu
 	if len(c0.edges) == 0 && len(c0.triples) == 0 {
 		return nil // the closure never distinguishes the zero CAS: nothing to assume
 	}
-	args := s.Call.Common().Args
-	q := args[1]
-	if s.Call.Common().IsInvoke() {
-		q = args[0]
-	}
+	q := s.textArg()
 	reach := entryReach(K, c0)
 	if !reach[s.Call.Block().Index] {
 		return nil
